@@ -141,6 +141,7 @@ def model_line(case, impl_line):
 def norm(line):
     """What is compared with the model: the panic text and the broker views (oracle input only) are dropped."""
     line = re.sub(r" \| v\d+: V[^|]*(?= \||$)", "", line)
+    line = re.sub(r"^CONFIG-REFUSED \S*", "CONFIG-REFUSED", line)
     return re.sub(r"\| CRASH \S*", "| CRASH", line).rstrip()
 
 
@@ -189,14 +190,12 @@ def parse_consumer(seg):
 
 def oracle(impl_line, case=None):
     """The property's own demands evaluated on the implementation's output alone.  Returns a list of failures.
-    A crash with intervals = 0 is outside conc_no_crash's hypothesis 1 <= intervals (ring.New(0) is nil; whether Configure
-    should refuse that value is C19's question): it is compared with the model (which crashes too) but not alarmed on."""
+    (The hypothesis 1 <= intervals of conc_no_crash is discharged by InMemoryStorage.Configure, which refuses smaller
+    values since c110ef6 - the probe then prints CONFIG-REFUSED and nothing runs; a crash is a crash for every
+    configuration that Configure accepts.)"""
     bad = []
     secs = impl_line.split(" | ")
-    zero_intervals = case is not None and case.split()[1] == "0"
     for s in secs[1:]:
-        if s.startswith("CRASH") and zero_intervals:
-            continue
         if s.startswith("CRASH"):
             bad.append("crash: a handler panicked (%s) - worker goroutines have no recover, the process dies" % s[6:])
         elif s == "DEADLOCK":
@@ -566,6 +565,9 @@ def run(chk, failed):
         "regenerated access table (every conflicting access pair shares a lock or a worker)",
         "router: requests are put on worker queues directly (same (cluster, group) => same worker); mainLoop's dispatch is tied by gen/RouterTable.v",
         "requests are well formed (0 <= partition < TopicPartitionCount for broker offsets); TimeoutSendStorageRequest dropping requests is not modelled",
+        "1 <= intervals (hypothesis of conc_no_crash, conc_group_one_worker_partial, conc_group_final_state_partial, run_alone_refines): discharged by "
+        "InMemoryStorage.Configure, which refuses intervals < 1 (/repo c110ef6; workers < 1: 746d605) - tied by the corpus case intervals = 0 => "
+        "CONFIG-REFUSED on implementation and driver; C19's model has the site StorageIntervals",
         "Go map iteration order is taken from the implementation's own lock trace and handed to the model as `prio`",
     ]
     chk.trusted += ["translator/lockset (go/ast + go/types walk of inmemory.go; unclassifiable => failing row)",
